@@ -156,6 +156,88 @@ func VerifC42Protect(id, vers uint16, writes [][]byte, closeNotify bool) ([]byte
 	return fc.out, verifC42Seq(&c.out)
 }
 
+// verifC42PadBytes: CBC padding of a foreign peer.  style 1 = SSLv3 style (arbitrary content, last byte =
+// count-1), 2 = TLS long padding (padx extra blocks, uniform), 3 = length byte 255; base = minimal count.
+func verifC42PadBytes(style, padx, base, bs int) []byte {
+	n := base
+	if style == 2 {
+		n = base + bs*padx
+	}
+	pad := make([]byte, n)
+	for i := range pad {
+		switch style {
+		case 2:
+			pad[i] = byte(n - 1)
+		default:
+			pad[i] = byte(37*i + 11)
+		}
+	}
+	switch style {
+	case 1:
+		pad[n-1] = byte(n - 1)
+	case 3:
+		pad[n-1] = 255
+	}
+	return pad
+}
+
+// verifC42WritePad writes one record the way writeRecord + halfConn.encrypt do for a CBC suite (same
+// cipher, MAC and sequence-number objects of c.out), but with the padding of a foreign peer.
+func verifC42WritePad(c *Conn, typ recordType, data []byte, style, padx int) {
+	hc := &c.out
+	cbc := hc.cipher.(cbcMode)
+	bs := cbc.BlockSize()
+	explicit := 0
+	if hc.version >= VersionTLS11 {
+		explicit = bs
+	}
+	m := len(data)
+	hdr := []byte{byte(typ), byte(c.vers >> 8), byte(c.vers), byte(m >> 8), byte(m)}
+	mac := hc.mac.MAC(nil, hc.seq[0:], hdr, data)
+	plain := append(append([]byte(nil), data...), mac...)
+	plain = append(plain, verifC42PadBytes(style, padx, bs-len(plain)%bs, bs)...)
+	rec := append([]byte(nil), hdr...)
+	if explicit > 0 {
+		iv := make([]byte, explicit)
+		io.ReadFull(c.config.rand(), iv)
+		rec = append(rec, iv...)
+		cbc.SetIV(iv)
+	}
+	enc := make([]byte, len(plain))
+	cbc.CryptBlocks(enc, plain)
+	rec = append(rec, enc...)
+	n := len(rec) - recordHeaderLen
+	rec[3], rec[4] = byte(n>>8), byte(n)
+	hc.incSeq()
+	c.conn.Write(rec)
+}
+
+// VerifC42ProtectPeer is VerifC42Protect for a peer with CBC padding style 1..3 (record boundaries as
+// Conn.Write), followed by a close_notify alert record when closeNotify.
+func VerifC42ProtectPeer(id, vers uint16, writes [][]byte, closeNotify bool, style, padx int) []byte {
+	fc := &verifC42Conn{}
+	c := verifC42NewConn(id, vers, true, fc)
+	for _, w := range writes {
+		// same record boundaries as Conn.Write/writeRecord: 1/n-1 split up to TLS 1.0, 1024-byte pieces
+		if len(w) > 1 && vers <= VersionTLS10 {
+			verifC42WritePad(c, recordTypeApplicationData, w[:1], style, padx)
+			w = w[1:]
+		}
+		for len(w) > 0 {
+			k := len(w)
+			if k > initPlaintext {
+				k = initPlaintext
+			}
+			verifC42WritePad(c, recordTypeApplicationData, w[:k], style, padx)
+			w = w[k:]
+		}
+	}
+	if closeNotify {
+		verifC42WritePad(c, recordTypeAlert, []byte{alertLevelWarning, byte(alertCloseNotify)}, style, padx)
+	}
+	return fc.out
+}
+
 // verifC42SentAlert decrypts the first record the server wrote and returns its alert code (-1: none).
 func verifC42SentAlert(id, vers uint16, out []byte) int {
 	if len(out) < recordHeaderLen || recordType(out[0]) != recordTypeAlert {
